@@ -491,7 +491,8 @@ def rename_keys(t, d, f):
     if k in ("union", "tuple_union"):
         if not any(OBJ_KINDS & a.features() for a in t.kids): return d
         if not has_dict(d): return d
-        cands = [a for a in t.kids if (OBJ_KINDS & a.features()) or a.kind in ("mapping", "cdict", "any")]
+        # (an alternative that holds a mapping or Any at any depth can read the dicts of the datum as well: their keys are then data, not field names)
+        cands = [a for a in t.kids if (OBJ_KINDS & a.features()) or ({"mapping", "cdict", "any"} & a.features())]
         if len(cands) != 1 or not (OBJ_KINDS & cands[0].features()): raise Ambiguous()
         return rename_keys(cands[0], d, f)
     if hasattr(t, "fields"):
